@@ -82,6 +82,25 @@ Theorem C17_html_comment_inert :
 Proof. intros remove void. exact (build_comment_inert hvis remove void (h_start void) h_end h_data h_init). Qed.
 Print Assumptions C17_html_comment_inert.
 
+(* the tree keeps every visible character, in document order, and nothing else: the text of the
+   built tree (_get_node_text(root): text, children, tails) is exactly the concatenation of the Data
+   events that lie outside removed elements ... *)
+Theorem C17_html_text_preserved :
+  forall (remove void : list str) (l : list event),
+    flat_node (tree_of (vis (html_build remove void l))) = visible_text remove void l.
+Proof. exact html_text_preserved. Qed.
+Print Assumptions C17_html_text_preserved.
+
+(* ... and all Data of the document when it contains no removable start tag at all (so, together with
+   non-interference: a document of visible markup interleaved with closed removable elements yields
+   exactly the Data outside those elements) *)
+Theorem C17_html_all_text_without_removable :
+  forall (remove void : list str) (l : list event),
+    no_removable remove l = true ->
+    flat_node (tree_of (vis (html_build remove void l))) = all_data l.
+Proof. exact html_all_text. Qed.
+Print Assumptions C17_html_all_text_without_removable.
+
 (* ---- EPUB chapter machine (_XhtmlTextExtractor); normcell = whitespace normalisation oracle ---- *)
 
 Theorem C17_epub_noninterference :
